@@ -73,28 +73,29 @@ type Config struct {
 	Tier    string `json:"tier"`
 	Steps   int    `json:"steps"`
 
-	NumVals         int           `json:"num_vals"`
-	SpareVals       int           `json:"spare_vals"` // accounts+keys that may create validators later
-	Tokens          []int64       `json:"tokens"`
-	M               int64         `json:"max_provider_consensus_validators"`
-	MaxValidators   uint32        `json:"staking_max_validators"`
-	BlocksPerEpoch  int64         `json:"blocks_per_epoch"`
-	Unbonding       time.Duration `json:"unbonding"`
-	EpochsToRewards int64         `json:"epochs_to_rewards"`
-	SlashFraction   string        `json:"slash_meter_fraction"`
-	SlashPeriod     time.Duration `json:"slash_meter_period"`
-	VotingPeriod    time.Duration `json:"voting_period"`
-	CcvTimeout      time.Duration `json:"ccv_timeout"`
-	SignedWindow    int64         `json:"signed_blocks_window"`
-	LiveConsumers   int           `json:"live_consumers"`
-	Votes           bool          `json:"votes"`
-	Record          bool          `json:"record"`
-	KeyPoolSize     int           `json:"key_pool"`
-	Hostile         bool          `json:"hostile"`
-	StarveSome      bool          `json:"starve_some"`
-	ErrAckStep      int           `json:"err_ack_step"` // from this step on, a malicious live consumer answers one VSC packet with an error acknowledgement (0: never)
-	RetryDelay      time.Duration `json:"retry_delay"`
-	TransferTimeout time.Duration `json:"transfer_timeout"` // consumer TransferTimeoutPeriod (0 = default); deliberately different from the retry delay
+	NumVals           int           `json:"num_vals"`
+	SpareVals         int           `json:"spare_vals"` // accounts+keys that may create validators later
+	Tokens            []int64       `json:"tokens"`
+	M                 int64         `json:"max_provider_consensus_validators"`
+	MaxValidators     uint32        `json:"staking_max_validators"`
+	BlocksPerEpoch    int64         `json:"blocks_per_epoch"`
+	Unbonding         time.Duration `json:"unbonding"`
+	EpochsToRewards   int64         `json:"epochs_to_rewards"`
+	SlashFraction     string        `json:"slash_meter_fraction"`
+	SlashPeriod       time.Duration `json:"slash_meter_period"`
+	VotingPeriod      time.Duration `json:"voting_period"`
+	CcvTimeout        time.Duration `json:"ccv_timeout"`
+	SignedWindow      int64         `json:"signed_blocks_window"`
+	LiveConsumers     int           `json:"live_consumers"`
+	Votes             bool          `json:"votes"`
+	Record            bool          `json:"record"`
+	KeyPoolSize       int           `json:"key_pool"`
+	Hostile           bool          `json:"hostile"`
+	StarveSome        bool          `json:"starve_some"`
+	LateHandshakeStop bool          `json:"late_handshake_stop"` // a third live consumer is stopped by its owner while its CCV handshake is still outstanding; the relayer completes it afterwards
+	ErrAckStep        int           `json:"err_ack_step"`        // from this step on, a malicious live consumer answers one VSC packet with an error acknowledgement (0: never)
+	RetryDelay        time.Duration `json:"retry_delay"`
+	TransferTimeout   time.Duration `json:"transfer_timeout"` // consumer TransferTimeoutPeriod (0 = default); deliberately different from the retry delay
 
 	ConsumerUnbonding time.Duration `json:"consumer_unbonding"`
 	HandshakeDelayMax int           `json:"handshake_delay_max"`
